@@ -22,7 +22,7 @@ claim("C01", "Theorem C01: for every non-empty list of literal items, all 4 flag
       "Hypotheses: literal names (no regex metacharacters, no , |), operand names not of the form [0-9a-f]+h (finding D11), "
       "records of at most 1000 characters, lower-case hex addresses, no :: inside a record body.")
 claim("C02", "Theorems C02_rule_den / C02_pipeline (whole operation: the rule file with times n and the one with the item written n times give the same verdict); C02_bounds (times {lo,hi} = n-fold composition, lo <= n <= hi, each repetition consuming what one occurrence "
-      "consumes), C02_unroll (times n = written n times, at regex level), C02_spellings, for every item/group of the capture-free "
+      "consumes), C02_unroll (times n = written n times, at regex level), C02_spellings, C02_nested_group / C02_nested_counts_den / C02_nested_exact_den / C02_counts_do_not_fold (Properties/C02Nested.lean: a counted group around a counted item is k rounds of a..b copies - totals a*k..b*k for one k in lo..hi, the multiples only for an exact inner count; the counts do not fold into one range), for every item/group of the capture-free "
       "literal fragment." + COMMON, "DESIGN.md 0.2, 7 C02", "Fragment: items and $and/$or/$not/$and_any_order groups nested arbitrarily; no captures inside (C05).")
 claim("C03", "Theorems C03_or / C03_and / C03_anyOrder (some permutation q ~ l, each child once) at instruction and operand level, "
       "C03_no_merge, C03_perms; C03_verdict (engine search = executable specification foundSpec on the fragment) and C03_pipeline (whole operation runOp on the YAML text of any rule of the fragment = foundSpec)." + COMMON, "DESIGN.md 0.2, 7 C03", "$deref fields containing $or: correspondence only.")
